@@ -381,11 +381,94 @@ func runC15(c *core.Ctx) {
 			c15One(c, s, fmt.Sprintf("number site schema, %s = %v", site, x), "addtypes", attrs)
 		}
 	}
+	// ---- D: schemas that arrive in several loads and never declare a schema block: what 'extend schema' said about the root
+	// operation types, beside unrelated types that happen to carry the conventional names and arrive in another load. Every
+	// sequence of <= 4 different units; after every accepted load the printed root is reloaded and compared.
+	{
+		units := []string{
+			"extend schema { mutation: Change }\n", "extend schema { subscription: Feed }\n", "type Mutation { m: Int }\n", "type Subscription { s: Int }\n",
+			"extend schema @onsch\n", "extend type Query { more: Change }\n",
+		}
+		const first = "type Query { q: Int }\ntype Change { bump: Int }\ntype Feed { f: Int }\ndirective @onsch on SCHEMA\n"
+		var idx int64
+		var rec func(seq []int)
+		rec = func(seq []int) {
+			if len(seq) > 0 {
+				idx++
+				if c.OwnsIdx(idx) {
+					c.Eval()
+					c.R.Distinct++
+					c.Nontrivial()
+					root := ggql.NewRoot(c16Dummy{})
+					loads := []string{first}
+					refused := false
+					var s1 string
+					pi := core.Safe(func() {
+						if err := root.ParseString(first); err != nil {
+							panic(core.EngineError{Msg: "C15 part D base refused: " + err.Error()})
+						}
+						for _, ui := range seq {
+							loads = append(loads, units[ui])
+							if err := root.ParseString(units[ui]); err != nil {
+								refused = true
+								return
+							}
+						}
+						s1 = root.SDL(false, true)
+					})
+					det := map[string]interface{}{"loads": loads, "printed": s1}
+					switch {
+					case pi != nil:
+						det["diff"] = pi.Value
+						c.Violation("panic", map[string]string{"site": pi.Site, "class": pi.Class, "where": "several-loads"}, det)
+					case refused:
+						c.Outcome("several-loads-refused")
+					default:
+						one, err1 := sgen.FromRoot(root, []string{"onsch"})
+						l2 := loadSDL(s1)
+						if err1 != nil {
+							panic(core.EngineError{Msg: "C15 part D readback: " + err1.Error()})
+						}
+						if l2.pi != nil || l2.err != nil {
+							det["diff"] = fmt.Sprint(l2.err, l2.pi)
+							c.Outcome("printed-sdl-refused")
+							c.Violation("roundtrip", map[string]string{"what": "printed-sdl-refused", "part": "D", "route": "several-loads"}, det)
+							break
+						}
+						two, err2 := sgen.FromRoot(l2.root, []string{"onsch"})
+						if err2 != nil {
+							panic(core.EngineError{Msg: "C15 part D readback: " + err2.Error()})
+						}
+						if a, b := one.Canonical(sgen.CanonOpts{}), two.Canonical(sgen.CanonOpts{}); a != b {
+							det["diff"] = firstLineDiff(a, b)
+							c.Outcome("schema-changed")
+							c.Violation("roundtrip", map[string]string{"what": "schema-changed", "part": "D", "route": "several-loads"}, det)
+							break
+						}
+						c.Outcome("roundtrip-ok")
+					}
+				}
+			}
+			if len(seq) == 4 {
+				return
+			}
+			for ui := range units {
+				used := false
+				for _, x := range seq {
+					used = used || x == ui
+				}
+				if !used {
+					rec(append(append([]int{}, seq...), ui))
+				}
+			}
+		}
+		rec(nil)
+	}
 	// ---- C: ggqlgen -w / -e (thorough, shard 0)
 	if c.Shard == 0 {
 		c15Ggqlgen(c, bases)
 	}
-	c.R.Bound = fmt.Sprintf("A: %d schemas; B: %d sites x %d strings (<= %d units over %d); B2: 7 constant sites x (24 numbers + explicit null); whole-root and per-type (reversed) printed forms; C: ggqlgen on the bases (thorough)", len(subjects), len(c15Sites()), len(strs), maxLen, len(c15Units))
+	c.R.Bound = fmt.Sprintf("A: %d schemas; B: %d sites x %d strings (<= %d units over %d); B2: 7 constant sites x (24 numbers + explicit null); whole-root and per-type (reversed) printed forms; C: ggqlgen on the bases (thorough); D: every sequence of <= 4 of 6 later loads around an undeclared schema", len(subjects), len(c15Sites()), len(strs), maxLen, len(c15Units))
 	if !completed {
 		c.Cap("deadline reached")
 	}
